@@ -20,7 +20,7 @@ nDEA == <<100, 47, 101, 47, 97>>  \* d/e/a
 nU == <<195, 188, 46, 116>>       \* ü.t
 nDE == <<100, 47, 101>>           \* d/e      (implied directory)
 Small == {nA, nDdotB, nDA, nDC, nDEA, nU}
-Universe == IF Large THEN Small \cup {nB, nD} ELSE Small
+Universe == IF Large THEN Small \cup {nD} ELSE Small            \* (b is only a probe: one more plain root file adds nothing)
 Content(n) == IF n = nA THEN <<>> ELSE IF n = nB THEN <<120>> ELSE n
 
 Trees == {T \in {[i \in 1..Len(q) |-> [n |-> q[i], d |-> Content(q[i])]] :
